@@ -180,6 +180,34 @@ M("C09", "unexpected-type-keyerror", LAN, "            raise ProtocolError(f\"Un
 M("C09", "device-catches-protocol-only", BASE, "        except TimeoutError as e:\n            _LOGGER.warning(\"Network timeout %s:%d: %s\", self.ip, self.port, e)", "        except asyncio.TimeoutError as e:\n            _LOGGER.warning(\"Network timeout %s:%d: %s\", self.ip, self.port, e)")
 M("C09", "handshake-len-unchecked", LAN, "        if len(data) != 64:\n            raise AuthenticationError(\n                \"Invalid data length for key handshake.\")\n", "")
 
+# ---- C07
+M("C07", "counter-increment-2", LAN, "        self._packet_id += 1\n        self._packet_id &= 0xFFF  # Mask to 12 bits", "        self._packet_id += 2\n        self._packet_id &= 0xFFF  # Mask to 12 bits")
+M("C07", "auth-expiry-ignored", LAN, "        if datetime.now(timezone.utc) > self._local_key_expiration:\n            _LOGGER.debug(\"Authentication with %s has expired.\", self.peer)\n            return False", "        if False:\n            return False")
+M("C07", "alive-comparison-flipped", LAN, "if self._connection_expiration and datetime.now(timezone.utc) > self._connection_expiration:", "if self._connection_expiration and datetime.now(timezone.utc) < self._connection_expiration:")
+M("C07", "connection-expiry-never-set", LAN, "        if self._max_connection_lifetime:\n            self._connection_expiration", "        if False:\n            self._connection_expiration")
+M("C07", "send-skips-authenticate", LAN, "                and not self._protocol.authenticated):\n            await self.authenticate()", "                and not self._protocol.authenticated and False):\n            await self.authenticate()")
+M("C07", "stale-token-after-failed-auth", LAN, "        # A V3 protocol should exist at this point\n        assert isinstance(self._protocol, _LanProtocolV3)\n", "        # A V3 protocol should exist at this point\n        assert isinstance(self._protocol, _LanProtocolV3)\n        self._token = token\n        self._key = key\n")
+M("C07", "counter-reset-on-auth", LAN, "        # Flush any existing data from the queue\n        self._flush()\n", "        # Flush any existing data from the queue\n        self._flush()\n        self._packet_id = 0\n")
+M("C07", "auth-lifetime-24h", LAN, "AUTHENTICATION_EXPIRATION = timedelta(hours=12)", "AUTHENTICATION_EXPIRATION = timedelta(hours=24)")
+M("C07", "key-survives-reconnect", LAN, "        self._protocol = protocol\n", "        prev = getattr(self, \"_protocol_prev\", None)\n        if isinstance(prev, _LanProtocolV3) and isinstance(protocol, _LanProtocolV3):\n            protocol._local_key = prev._local_key\n            protocol._local_key_expiration = prev._local_key_expiration\n        self._protocol = protocol\n        self._protocol_prev = protocol\n")
+M("C07", "expiry-refreshed-on-send", LAN, "        # Encode frame to packet\n        packet = _Packet.encode(self._device_id, data)", "        if isinstance(self._protocol, _LanProtocolV3):\n            self._protocol._local_key_expiration = datetime.now(timezone.utc) + self._protocol.AUTHENTICATION_EXPIRATION\n        # Encode frame to packet\n        packet = _Packet.encode(self._device_id, data)")
+M("C07", "lifetime-from-last-use", LAN, "        # Send the request and wait for a response\n        while retries > 0:", "        if self._max_connection_lifetime:\n            self._connection_expiration = datetime.now(timezone.utc) + self._max_connection_lifetime\n        # Send the request and wait for a response\n        while retries > 0:")
+M("C07", "no-counter-mask(thorough)", LAN, "        self._packet_id &= 0xFFF  # Mask to 12 bits", "        pass")
+
+# ---- C08
+M("C08", "retry-off-by-one", LAN, "                if retries > 1:\n                    _LOGGER.debug(\"Read timeout. Resending to %s.\",", "                if retries >= 1:\n                    _LOGGER.debug(\"Read timeout. Resending to %s.\",")
+M("C08", "missing-break", LAN, "                responses.append(await self._read())\n                break", "                responses.append(await self._read())\n                retries -= 1\n                continue")
+M("C08", "no-disconnect-on-timeout", LAN, "                else:\n                    self._disconnect()\n                    raise TimeoutError(\"No response from host.\") from e\n            except ProtocolError as e:", "                else:\n                    raise TimeoutError(\"No response from host.\") from e\n            except ProtocolError as e:")
+M("C08", "no-disconnect-on-protocol-error", LAN, "                # TODO could add a fatal flag to exception to trigger disconnect\n                self._disconnect()\n                raise e", "                # TODO could add a fatal flag to exception to trigger disconnect\n                raise e")
+M("C08", "no-disconnect-on-cancel", LAN, "                _LOGGER.warning(\"Read cancelled. Disconnecting.\")\n                self._disconnect()", "                _LOGGER.warning(\"Read cancelled. Disconnecting.\")")
+M("C08", "connect-without-timeout", LAN, "            _transport, protocol = await asyncio.wait_for(task, timeout=5)", "            _transport, protocol = await task")
+M("C08", "device-timeout-not-caught", BASE, "        except TimeoutError as e:\n            _LOGGER.warning(\"Network timeout %s:%d: %s\", self.ip, self.port, e)", "        except TimeoutError as e:\n            _LOGGER.warning(\"Network timeout %s:%d: %s\", self.ip, self.port, e)\n            raise")
+M("C08", "alive-ignores-closing", LAN, "        if self._transport is None or self._transport.is_closing():\n            return False", "        if self._transport is None:\n            return False")
+M("C08", "read-timeout-3s", LAN, "    async def read(self, timeout: int = 2) -> bytes:\n        \"\"\"Asynchronously read data from the peer via the queue.\"\"\"\n\n        # Fetch a packet from the queue\n        return await self._read_queue(timeout=timeout)", "    async def read(self, timeout: int = 3) -> bytes:\n        \"\"\"Asynchronously read data from the peer via the queue.\"\"\"\n\n        # Fetch a packet from the queue\n        return await self._read_queue(timeout=timeout)")
+M("C08", "retries-ignored-on-v3-reauth", LAN, "    async def send(self, data: bytes, retries: int = RETRIES) -> list[bytes]:\n        \"\"\"Send data via the LAN protocol. Connecting to the peer if necessary.\"\"\"\n", "    async def send(self, data: bytes, retries: int = RETRIES) -> list[bytes]:\n        \"\"\"Send data via the LAN protocol. Connecting to the peer if necessary.\"\"\"\n        retries = max(retries, 2)\n")
+M("C08", "online-sticky", DEV, "        self._online = len(responses) > 0", "        self._online = self._online or len(responses) > 0")
+M("C08", "stale-protocol-after-auth-failure", LAN, "        # Connect if protocol doesn't exist or is dead\n        if not self._alive:\n            self._disconnect()\n            await self._connect()", "        # Connect if protocol doesn't exist or is dead\n        if self._protocol is None:\n            await self._connect()")
+
 
 def apply_mutant(src_root: str, file: str, old: str, new: str) -> None:
     p = os.path.join(src_root, file)
